@@ -88,7 +88,8 @@ def oracle_scores(gi, n, X, cfg):
     if M.shape[0] == 0:
         sc = np.full((X.shape[0], 0), -np.inf)
     else:
-        sc = X.astype(np.float64) @ M.T - pen * u[None, :]
+        with np.errstate(invalid='ignore'):      # rows with infinite entries: 0 * inf is NaN for derivations that do not use the entry; NaN scores are never judged
+            sc = X.astype(np.float64) @ M.T - pen * u[None, :]
     adm_sets = None
     amb = np.zeros(X.shape[0], dtype=bool)
     if pruning < T or use_beta:
@@ -156,6 +157,18 @@ def explore(st, gi, n, X, cfg, path, judges):
                 why = S.validate_tree(t, g, n, adm_sets[c])
                 if why and 'beam excluded' in why:
                     st.violation(f'beam/excluded_tag/{gkey(g)}', f'result {k}: {why}', x=x, tree=repr(t), **base)
+            elif 'beam' in judges and adm_sets and amb[c]:
+                # the admitted set of some word is unspecified (ties, threshold margin, all-zero probabilities): the other words are still judged
+                T_ = len(g.tags)
+                pw = []
+                for i in range(n):
+                    r = S.admitted_tags(tags[c, i], cfg.get('pruning_size', T_), cfg.get('beta', 0.00001), cfg.get('use_beta', False))
+                    pw.append(set(range(T_)) if r[1] else set(r[0]))
+                if any(len(a) < T_ for a in pw):
+                    st.count('partially_specified_sentences')
+                    why = S.validate_tree(t, g, n, pw)
+                    if why and 'beam excluded' in why:
+                        st.violation(f'beam/excluded_tag_word/{gkey(g)}', f'result {k}: {why} (the admitted sets of other words of this sentence are unspecified, this word\'s is not)', x=x, tree=repr(t), **base)
             if 'score' in judges:
                 exp, head, ok = S.tree_score(t, g, tags[c], deps[c], pen)
                 if ok:
